@@ -7,7 +7,7 @@ use std::time::Duration;
 macro_rules! time_unit {
     ($name:ident, $method:ident, $per:expr, $sign:expr) => {
         pub fn $name(n: u64, off: i32, k: u32) {
-            assume(n < NPD as u64 && valid_off(off));
+            assume(n < NPD as u64); assume(off > -86_400); assume(off < 86_400);
             let r = tm(n, off).$method(k);
             assert!(r.nanoseconds < NPD as u64);
             assert!(r.nanoseconds as i128 == fmod128(n as i128 + ($sign as i128) * (k as i128) * ($per as i128), NPD));
@@ -31,7 +31,7 @@ time_unit!(c08_sub_nanos_holds, sub_nanos, 1i128, -1);
 macro_rules! time_time {
     ($name:ident, $op:tt, $sign:expr) => {
         pub fn $name(n: u64, off: i32, n2: u64, off2: i32) {
-            assume(n < NPD as u64 && n2 < NPD as u64 && valid_off(off) && valid_off(off2));
+            assume(n < NPD as u64); assume(n2 < NPD as u64); assume(off > -86_400); assume(off < 86_400); assume(off2 > -86_400); assume(off2 < 86_400);
             let r = tm(n, off) $op tm(n2, off2);
             assert!(r.nanoseconds < NPD as u64);
             assert!(r.nanoseconds as i128 == fmod128(n as i128 + ($sign as i128) * n2 as i128, NPD));
@@ -45,7 +45,7 @@ time_time!(c08_time_minus_time_holds, -, -1);
 macro_rules! time_duration {
     ($name:ident, $op:tt, $sign:expr) => {
         pub fn $name(n: u64, off: i32, secs: u64, ns: u32) {
-            assume(n < NPD as u64 && valid_off(off) && ns < 1_000_000_000);
+            assume(n < NPD as u64); assume(off > -86_400); assume(off < 86_400); assume(ns < 1_000_000_000);
             let r = tm(n, off) $op Duration::new(secs, ns);
             assert!(r.nanoseconds < NPD as u64);
             assert!(r.nanoseconds as i128 == fmod128(n as i128 + ($sign as i128) * (secs as i128 * NPS + ns as i128), NPD));
@@ -91,7 +91,7 @@ pub fn c08_readback_holds(n: u64) {
 }
 /// Time taken from a DateTime is the DateTime's time of day, offset carried over
 pub fn c08_from_datetime_holds(d: i32, n: u64, off: i32) {
-    assume(n < NPD as u64 && valid_off(off));
+    assume(n < NPD as u64); assume(off > -86_400); assume(off < 86_400);
     let t = Time::from(dt(d, n, off));
     assert!(t.nanoseconds == n && off_secs(t.offset) == off);
     let t2 = Time::from(&dt(d, n, off));
